@@ -626,9 +626,10 @@ def _eval_view(cases):
                       f"amem={gen.enc_arr(list(range(c['buf'])))} lbase=0 lstrides={gen.enc_arr(cs)} lmem={gen.enc_arr(lab)} "
                       f"maxlabel={max(0, int(lab.max()) + 1) if n else 0}")
     ldrvs = core.drive(llines)
+    kres = _eval_kview(cases)
     out = []
-    for c, v, drv, lab, ldrv in zip(cases, views, drvs, labs, ldrvs):
-        findings = []
+    for c, v, drv, lab, ldrv, kr in zip(cases, views, drvs, labs, ldrvs, kres):
+        findings = list(kr['findings'])
         if lab.size and lab.max() >= 0:
             real_sum = [int(x) for x in mahotas.labeled.labeled_sum(v, lab).tolist()]
             logical_sum = [int(np.asarray(v)[lab == k].sum()) for k in range(int(lab.max()) + 1)]
@@ -676,9 +677,183 @@ def _eval_view(cases):
             if real_af != core.ints(drv['atflat']):
                 findings.append(dict(kind='model', key='view:atflat-model-vs-compiled', detail=dict(real=real_af, model=core.ints(drv['atflat']))))
         out.append(dict(findings=findings, nontrivial=n > 1, sig=lines[len(out)],
-                        tags=dict(stream='view', ndim=len(c['shape']), neg=any(s < 0 for s in c['strides']),
+                        tags=dict(stream='view', kview=kr['kernel'], ndim=len(c['shape']), neg=any(s < 0 for s in c['strides']),
                                   zero=any(s == 0 for s in c['strides']), carray=lines[len(out)].endswith('1'))))
     return out
+
+
+# ------------------------------------------------------------------------------------------------------------------
+# kview: the view-level kernel models of Model/C08.lean (erodeView, dilateView, ... — the definitions the Round-2
+# theorems C08_<kernel>_layout_free / C08_defined_everywhere_* are about) against the compiled kernels, on the same
+# arbitrarily strided views as the accessor stream
+
+KVIEW_KERNELS = ['erode', 'erode_bool', 'dilate', 'dilate_bool', 'locmax', 'locmin', 'convolve', 'rank', 'mean', 'tm',
+                 'borders', 'hitmiss', 'bbox', 'com', 'cwatershed', 'line']
+MODES = ['nearest', 'wrap', 'reflect', 'mirror', 'constant', 'ignore']
+
+
+def _cstr(shape):
+    cs, acc = [], 1
+    for d in reversed(shape):
+        cs.insert(0, acc)
+        acc *= d
+    return cs
+
+
+def _kview_setup(c):
+    """deterministic (from the case) choice of kernel, memory content, filter and its layout"""
+    r = random.Random('kview' + json.dumps(c, sort_keys=True))
+    kernel = r.choice(KVIEW_KERNELS)
+    shape, nd = c['shape'], len(c['shape'])
+    isbool = kernel in ('erode_bool', 'dilate_bool', 'hitmiss')
+    hi = 1 if isbool else (3 if kernel in ('borders', 'cwatershed') else 9)
+    mem = [r.randint(0, hi) for _ in range(c['buf'])]
+    bshape = [r.choice([1, 2, 3, 3]) for _ in range(nd)]
+    nb = int(np.prod(bshape))
+    if kernel == 'hitmiss':
+        b = [r.choice([0, 1, 2, 2, 2]) for _ in range(nb)]
+    elif kernel in ('convolve', 'tm'):
+        b = [r.randint(0, 3) for _ in range(nb)]
+    elif kernel in ('erode', 'dilate'):
+        b = [r.choice([0, 1, 1, 2]) for _ in range(nb)]
+    else:
+        b = [r.choice([0, 1, 1]) for _ in range(nb)]
+    if kernel in ('locmax', 'locmin'):
+        pass    # the wrapper removes the centre itself; the model receives the centre-less element (below)
+    mode = r.randrange(6)
+    if kernel == 'rank' and mode == 5:
+        mode = 2
+    blayout = r.choice(['C', 'F', 'negstride', 'strided'])
+    return dict(kernel=kernel, mem=mem, bshape=bshape, b=b, mode=mode, blayout=blayout, isbool=isbool,
+                rank=r.randrange(max(1, sum(1 for x in b if x))), axis=r.randrange(nd),
+                p=[r.randrange(d) for d in shape], markers=[r.choice([0, 0, 0, 1, 2]) for _ in range(int(np.prod(shape)))])
+
+
+def _kview_line(c, k):
+    shape = c['shape']
+    b = list(k['b'])
+    if k['kernel'] in ('locmax', 'locmin'):
+        ctr = 0
+        for d, cs in zip(k['bshape'], _cstr(k['bshape'])):
+            ctr += (d // 2) * cs
+        b[ctr] = 0
+    kern = {'erode_bool': 'erode', 'dilate_bool': 'dilate'}.get(k['kernel'], k['kernel'])
+    dt = 'b1' if k['isbool'] and kern in ('erode', 'dilate') else ('u8' if kern in ('erode', 'dilate') else 'i64')
+    carr = 1 if list(c['strides']) == _cstr(shape) else 0
+    line = (f"c08 kind=kview kernel={kern} dt={dt} mode={k['mode']} rank={k['rank']} axis={k['axis']} p={gen.enc_arr(k['p'])} "
+            f"amem={gen.enc_arr(k['mem'])} abase={c['base']} ashape={gen.enc_shape(shape)} astrides={gen.enc_arr(list(c['strides']))} "
+            f"acarray={carr} bmem={gen.enc_arr(b)} bbase=0 bshape={gen.enc_shape(k['bshape'])} "
+            f"bstrides={gen.enc_arr(_cstr(k['bshape']))} bcarray=1")
+    if kern == 'cwatershed':
+        line += (f" mmem={gen.enc_arr(k['markers'])} mbase=0 mshape={gen.enc_shape(shape)} mstrides={gen.enc_arr(_cstr(shape))} mcarray=1")
+    return line
+
+
+def _kview_real(c, k):
+    """the compiled kernel on the strided view; returns a dict of comparable lists"""
+    import mahotas, mahotas.labeled, mahotas.convolve
+    kern = k['kernel']
+    dtype = np.bool_ if k['isbool'] and kern != 'hitmiss' else (np.float64 if kern in ('convolve',) else
+                                                                 (np.uint8 if kern in ('erode', 'dilate', 'hitmiss') else np.int64))
+    buf = np.array(k['mem']).astype(dtype)
+    isz = buf.itemsize
+    v = np.lib.stride_tricks.as_strided(buf[c['base']:], shape=tuple(c['shape']), strides=tuple(isz * s for s in c['strides']),
+                                        writeable=False)
+    b = np.array(k['b']).astype(dtype).reshape(k['bshape'])
+    if k['blayout'] == 'F':
+        b = np.asfortranarray(b)
+    elif k['blayout'] == 'negstride':
+        b = b[::-1].copy()[::-1]
+    elif k['blayout'] == 'strided':
+        big = np.zeros(tuple(2 * d for d in k['bshape']), dtype)
+        big[tuple(slice(None, None, 2) for _ in k['bshape'])] = b
+        b = big[tuple(slice(None, None, 2) for _ in k['bshape'])]
+    mode = MODES[k['mode']]
+    flat = lambda a: [int(x) for x in np.asarray(a).ravel(order='C').tolist()]
+    if kern in ('erode', 'erode_bool'):
+        return dict(out=flat(mahotas.erode(v, b)))
+    if kern in ('dilate', 'dilate_bool'):
+        return dict(out=flat(mahotas.dilate(v, b)))
+    if kern == 'locmax':
+        return dict(out=flat(mahotas.locmax(v, b)))
+    if kern == 'locmin':
+        return dict(out=flat(mahotas.locmin(v, b)))
+    if kern == 'convolve':
+        return dict(out=flat(mahotas.convolve(v, b, mode=mode)))
+    if kern == 'rank':
+        return dict(out=flat(mahotas.rank_filter(v, b, k['rank'], mode=mode)))
+    if kern == 'mean':
+        return dict(mean=[float(x) for x in mahotas.mean_filter(v, b, mode=mode).ravel().tolist()])
+    if kern == 'tm':
+        return dict(out=flat(mahotas.template_match(v, b, mode=mode)))
+    if kern == 'borders':
+        return dict(out=flat(mahotas.labeled.borders(v, b, mode=mode)))
+    if kern == 'hitmiss':
+        return dict(out=flat(mahotas.hitmiss(v, b)))
+    if kern == 'bbox':
+        return dict(out=flat(mahotas.bbox(v)))
+    if kern == 'com':
+        return dict(com=[float(x) for x in np.asarray(mahotas.center_of_mass(v)).ravel().tolist()])
+    if kern == 'cwatershed':
+        mk = np.array(k['markers'], np.int64).reshape(c['shape'])
+        r, lines = mahotas.cwatershed(v, mk, Bc=b.astype(bool) if b.any() else None, return_lines=True)
+        return dict(out=flat(r), lines=flat(lines), skip=not b.any())
+    if kern == 'line':
+        ln = np.moveaxis(np.asarray(v), k['axis'], -1)[tuple(x for i, x in enumerate(k['p']) if i != k['axis'])]
+        return dict(out=flat(ln))
+    raise KeyError(kern)
+
+
+def _eval_kview(cases):
+    ks = [_kview_setup(c) for c in cases]
+    drvs = core.drive([_kview_line(c, k) for c, k in zip(cases, ks)])
+    res = []
+    for c, k, drv in zip(cases, ks, drvs):
+        f = []
+        kern = k['kernel']
+        try:
+            with warnings.catch_warnings():
+                warnings.simplefilter('ignore')
+                real = _kview_real(c, k)
+        except Exception as e:          # a value turned into an exception by the layout: the sweep judges that; here it is a model gap
+            if kern == 'rank' and not any(k['b']) and isinstance(e, ValueError):
+                # empty neighbourhood: the wrapper's rank guard raises; the native model writes no cell (all unwritten)
+                ok = set(drv.get('out', 'x').split(',')) <= {'u'}
+                res.append(dict(findings=[] if ok else [dict(kind='model', key='kview:rank:guard-vs-model', detail=dict(drv=drv))], kernel=kern))
+                continue
+            res.append(dict(findings=[dict(kind='model', key=f'kview:{kern}:real-raised', detail=dict(err=repr(e)[:200]))], kernel=kern))
+            continue
+        if 'error' in drv:
+            f.append(dict(kind='model', key=f'kview:{kern}:driver-error', detail=dict(drv=drv)))
+        elif kern == 'mean':
+            sums, ns = drv['sum'].split(','), drv['n'].split(',')
+            for i, (sm, n, rv) in enumerate(zip(sums, ns, real['mean'])):
+                if sm == 'u':
+                    f.append(dict(kind='model', key='kview:mean:unwritten-cell', detail=dict(i=i)))
+                    break
+                mv = float(int(sm)) / int(n) if int(n) else float('nan')
+                if not (mv == rv or (mv != mv and rv != rv)):
+                    f.append(dict(kind='model', key='kview:mean:model-vs-compiled', detail=dict(i=i, model=mv, real=rv)))
+                    break
+        elif kern == 'com':
+            num, tot = core.ints(drv['num']), int(drv['tot'])
+            mv = [float(x) / tot if tot else float('nan') for x in num]
+            if not all(a == b or (a != a and b != b) for a, b in zip(mv, real['com'])) or len(mv) != len(real['com']):
+                f.append(dict(kind='model', key='kview:com:model-vs-compiled', detail=dict(model=mv, real=real['com'])))
+        else:
+            if real.get('skip'):
+                pass
+            else:
+                mo = drv['out'].split(',') if drv['out'] not in ('', '-') else []
+                if 'u' in mo and kern != 'rank':
+                    f.append(dict(kind='model', key=f'kview:{kern}:unwritten-cell', detail=dict(model=drv['out'])))
+                elif len(mo) != len(real['out']) or any(a != 'u' and int(a) != b for a, b in zip(mo, real['out'])):
+                    f.append(dict(kind='model', key=f'kview:{kern}:model-vs-compiled',
+                                  detail=dict(model=drv['out'], real=real['out'], setup={x: k[x] for x in ('bshape', 'b', 'mode', 'blayout', 'rank')})))
+                if kern == 'cwatershed' and 'lines' in drv and core.ints(drv['lines']) != real['lines']:
+                    f.append(dict(kind='model', key='kview:cwatershed:lines-model-vs-compiled', detail=dict(model=drv['lines'], real=real['lines'])))
+        res.append(dict(findings=f, kernel=kern))
+    return res
 
 
 NORMS = {'ascontiguousarray': lambda a: np.ascontiguousarray(a), 'require:CAW': lambda a: np.require(a, requirements='CAW'),
